@@ -1452,7 +1452,7 @@ func c23SizeBytes(v uint64, n int) []byte {
 }
 
 func c23LengthFamily() [][]byte {
-	claims := []uint64{0, 1, 2, 55, 56, 57, 255, 256, 1000, 65535, 65536, 999999, 1000000, 1000001, 1 << 24, 1<<63 - 1, 1 << 63, 1<<64 - 1}
+	claims := []uint64{0, 1, 2, 55, 56, 57, 255, 256, 1000, 65535, 65536, 999999, 1000000, 1000001, 1 << 21, 1<<63 - 1, 1 << 63, 1<<64 - 1}
 	var out [][]byte
 	seen := map[string]bool{}
 	add := func(b []byte) {
@@ -1543,7 +1543,7 @@ func c23IntFamily() [][]byte {
 
 func TestVerifC23(t *testing.T) {
 	r := ev.Start(t, "C23", "exploration")
-	r.Rule("(A) round trip: typed value grammar built with reflect — leaves: int8/16/32/64/int, uint8/16/32/64/uint at every byte-length boundary, bool, string and []byte of length {0,1,2,55,56,255,256} incl. single bytes 00/7f/80/ff and nil []byte, [4]byte, [1]byte, *big.Int (nil,0,±1,±127..129,±2^64,±2^255) and big.Int fields; constructors {pointer, slice, [2]array, map[string], 1-field struct} applied to every leaf with all leaf values (depth 1), constructor∘constructor over every leaf with representative values (depth 2), a third constructor over depth-2 shapes (quick every 4th shape, thorough all; pairwise values), integer-keyed maps, every ordered pair of leaf types as a 2-field struct, 3-field structs over 7 leaf types, 2-field structs of depth-1 shapes. (B) decoder robustness: every byte string of length<=2 (thorough: + 22 boundary first bytes x all 65536 two-byte tails) into 23 target types and UnmarshalAny; every single-byte substitution (quick 24 boundary values, thorough all 256) and truncation of valid encodings of at most 24 (thorough 40) bytes into their own type; length-field family (b8..bf / f8..ff headers x 18 claimed sizes x payload lengths {0,1,claim-1,claim,claim+1} x 4 fills, also nested in a list); integer family (byte strings of length 0..9 at the sign/width boundaries) into every integer type and bool. (B') pool hygiene, sequential on one P: after every accepted input of the structural, length-field and <=2-byte families the pooled BC.UnmarshalFromBytes must still decode an unrelated valid message. (C) map determinism: every insertion order of up to 4 (thorough 6) keys. distinct_nontrivial = distinct (type, encoding) resp. (target, input) pairs")
+	r.Rule("(A) round trip: typed value grammar built with reflect — leaves: int8/16/32/64/int, uint8/16/32/64/uint at every byte-length boundary, bool, string and []byte of length {0,1,2,55,56,255,256} incl. single bytes 00/7f/80/ff and nil []byte, [4]byte, [1]byte, *big.Int (nil,0,±1,±127..129,±2^64,±2^255) and big.Int fields; constructors {pointer, slice, [2]array, map[string], 1-field struct} applied to every leaf with all leaf values (depth 1), constructor∘constructor over every leaf with representative values (depth 2), a third constructor over depth-2 shapes (quick every 4th shape, thorough all; pairwise values), integer-keyed maps, every ordered pair of leaf types as a 2-field struct, 3-field structs over 7 leaf types, 2-field structs of depth-1 shapes. (B) decoder robustness: every byte string of length<=2 (thorough: + 22 boundary first bytes x all 65536 two-byte tails) into 23 target types and UnmarshalAny; every single-byte substitution (quick 24 boundary values, thorough all 256) and truncation of valid encodings of at most 24 (thorough 40) bytes into their own type; every structural mutation of those encodings (one sub-item replaced by the nil marker / empty list / empty bytes / 00, deleted, or duplicated); length-field family (b8..bf / f8..ff headers x 18 claimed sizes x payload lengths {0,1,claim-1,claim,claim+1} x 4 fills, also nested in a list); integer family (byte strings of length 0..9 at the sign/width boundaries) into every integer type and bool. (B') pool hygiene, sequential on one P: after every accepted input of the structural, length-field and <=2-byte families the pooled BC.UnmarshalFromBytes must still decode an unrelated valid message. (C) map determinism: every insertion order of up to 4 (thorough 6) keys. distinct_nontrivial = distinct (type, encoding) resp. (target, input) pairs")
 	r.Assume("a pointer to a nil slice/map/pointer has the same encoding (f8 00) as a nil pointer: the format cannot keep them apart, the decoder returns the former, and the comparison treats the two as one value",
 		"interface-typed fields and ordered TypedDict.Keys are encode-only resp. order-preserving by design and are not compared structurally (typed objects are compared through UnmarshalAny)",
 		"the independent RLP reader in the harness (with goloop's f8 00 = nil extension) is trusted for sizes and structure")
@@ -1906,10 +1906,15 @@ func TestVerifC23(t *testing.T) {
 		for _, name := range []string{"[]byte", "string", "*big.Int", "struct{int16;[]byte;*string}", "[][]byte", "TypedObj"} {
 			tg := tgByName[name]
 			out := reflect.New(tg.t)
-			BC.UnmarshalFromBytes(in, out.Interface()) // warm the pools
-			runtime.ReadMemStats(&ms0)
-			_, err := BC.UnmarshalFromBytes(in, out.Interface())
-			runtime.ReadMemStats(&ms1)
+			var err error
+			if p := ev.Catch(func() {
+				BC.UnmarshalFromBytes(in, out.Interface()) // warm the pools
+				runtime.ReadMemStats(&ms0)
+				_, err = BC.UnmarshalFromBytes(in, out.Interface())
+				runtime.ReadMemStats(&ms1)
+			}); p != "" {
+				continue // panics are reported by the parallel phase
+			}
 			r.Eval(1)
 			allocChecked++
 			bound := uint64(16384 + 256*len(in))
